@@ -455,7 +455,7 @@ class Check:
 
 MODULES = {
     'C01': ['C01', 'C01Attr', 'C01Sat', 'C01Ns', 'C01Has', 'C01Parse'],
-    'C02': ['C02', 'C02Site'],
+    'C02': ['C02', 'C02Site', 'C02Parse'],
     'C03': ['C03', 'C03Wrappers'],
     'C07': ['C07', 'C07Parse'],
     'C09': ['C09', 'C09Rx', 'C09Compile', 'C09Compile2'],
@@ -469,7 +469,7 @@ MODULES = {
 }
 AUDITS = {
     'C01': ['C01', 'C01Attr', 'C01Sat', 'C01Has', 'C01Parse'],
-    'C02': ['C02', 'C02Site'],
+    'C02': ['C02', 'C02Site', 'C02Parse'],
     'C03': ['C03', 'C03Wrappers'],
     'C07': ['C07', 'C07Parse'],
     'C09': ['C09', 'C09Rx', 'C09Compile', 'C09Compile2'],
